@@ -33,3 +33,15 @@ func (in *Inflights) VerifDump() string {
 	sb.WriteString("]")
 	return sb.String()
 }
+
+// VerifStats returns (count, total bytes, bytes of the most recently added message).
+func (in *Inflights) VerifStats() (int, uint64, uint64) {
+	if in == nil || in.count == 0 {
+		return 0, 0, 0
+	}
+	last := in.start + in.count - 1
+	if last >= in.size {
+		last -= in.size
+	}
+	return in.count, in.bytes, in.buffer[last].bytes
+}
